@@ -2,6 +2,7 @@ package main
 
 import (
 	"strings"
+	"time"
 
 	"verifharness/lib"
 )
@@ -82,7 +83,7 @@ func replay(path string) {
 		case "prov.lock":
 			lockCheck()
 		case "prov.lsn":
-			if tags, args, outs, ok := runLsnChild(1, 0, c[2]); ok {
+			if tags, args, outs, ok := runLsnChild(1, 0, c[2], time.Now().Add(5*time.Minute)); ok {
 				w.Case("prov.lsn", tags, args, outs)
 			}
 		}
